@@ -160,7 +160,8 @@ def main(argv):
 
 
 def seeded_self_test(pid, seed):
-    """thorough tier: apply every committed seeded change of this property to a scratch copy and run the quick check on it;
+    """thorough tier: apply every committed seeded change of this property to a scratch copy and run the check on it (obligations
+    and witness drivers; the scratch run does not recurse into this self-test);
     reports which obligations catch which change (does not affect the exit code)"""
     import subprocess, random
     root = os.path.join(ROOT, 'seeded')
@@ -168,11 +169,14 @@ def seeded_self_test(pid, seed):
     ids = sorted(d for d in os.listdir(root) if os.path.exists(os.path.join(root, d, 'meta.json'))) if os.path.isdir(root) else []
     ids = [d for d in ids if json.load(open(os.path.join(root, d, 'meta.json'))).get('property') == pid]
     random.Random(seed).shuffle(ids)
-    for d in ids:
-        r = subprocess.run([os.path.join(ROOT, 'tools', 'seedtest.sh'), pid, os.path.join(root, d, 'patch.diff')], capture_output=True, text=True)
+    def one(d):
+        r = subprocess.run([os.path.join(ROOT, 'tools', 'seedtest.sh'), pid, os.path.join(root, d, 'patch.diff'), 'thorough'], capture_output=True, text=True)
         viol = re.findall(r'VIOLATION property=\S+ replay=\S*/replays/\S+/(\S+?)\.json', r.stdout)
         und = [l[:160] for l in r.stdout.split('\n') if l.startswith('UNDECIDED')]
-        out.append({'seeded_change': d, 'verdict': 'detected' if viol else ('undecided' if und else 'missed'), 'failed_obligations': viol[:8], 'undecided': und[:3]})
+        return {'seeded_change': d, 'verdict': 'detected' if viol else ('undecided' if und else 'missed'), 'failed_obligations': viol[:8], 'undecided': und[:3]}
+    import concurrent.futures
+    with concurrent.futures.ThreadPoolExecutor(3) as ex:
+        out = list(ex.map(one, ids))
     return out
 
 
